@@ -10,7 +10,7 @@ from . import common
 
 def all_ids():
     ids = []
-    for p in sorted((common.VERIF / "harness").glob("p_c*.py")):
+    for p in sorted((common.VERIF / "harness").glob("p_c[0-9][0-9].py")):
         ids.append(p.stem[2:].upper())
     return ids
 
